@@ -5,6 +5,7 @@ go 1.26.8
 require (
 	github.com/dgraph-io/badger/v2 v2.0.3
 	github.com/ethereum/go-ethereum v1.9.15
+	github.com/gobwas/ws v1.0.2
 	github.com/gorilla/websocket v1.4.2
 	github.com/vipnode/vipnode/v2 v2.0.0
 	pgregory.net/rapid v1.3.0
@@ -24,6 +25,8 @@ require (
 	github.com/edsrzf/mmap-go v1.0.0 // indirect
 	github.com/gballet/go-libpcsclite v0.0.0-20191108122812-4678299bea08 // indirect
 	github.com/go-stack/stack v1.8.0 // indirect
+	github.com/gobwas/httphead v0.0.0-20180130184737-2c6c146eadee // indirect
+	github.com/gobwas/pool v0.2.0 // indirect
 	github.com/golang/protobuf v1.4.2 // indirect
 	github.com/golang/snappy v0.0.1 // indirect
 	github.com/google/uuid v1.1.1 // indirect
